@@ -138,6 +138,9 @@ def run(ctx):
         probe("vmac/zip-garbage", pyref.mint(key, zip_=z, inner_bytes=struct.pack(">II", pyref.ZIP_MAGIC, 1000) + b"garbage"))
         probe("vmac/zip-claimed0", pyref.mint(key, zip_=z, inner_bytes=pyref.zip_wrap(z, good, claimed=0)))
         probe("vmac/zip-neg", pyref.mint(key, zip_=z, inner_bytes=pyref.zip_wrap(z, good, claimed=2 ** 31)))
+        for extra in (1, 5000):
+            short = pyref.inner(time0=now, data=b"q" * 40, data_len=40 + extra)
+            probe("vmac/zip-claimed-tail", pyref.mint(key, zip_=z, inner_bytes=pyref.zip_wrap(z, short, claimed=len(short) + extra)))
     # foreign key
     probe("foreignkey", pyref.mint(bytes(40), inner_bytes=base_inner))
     for cls in list(classes)[:12]:
